@@ -2,6 +2,11 @@
 
 HARNESSES = {
     'cbl': dict(sources=['src/h_cbl.cpp']),
+    # fault-enumeration variants: the same harness sources plus the replacement operator new (allocation failures)
+    'cbl_f': dict(sources=['src/h_cbl.cpp', 'src/common/newfault.cpp']),
+    'queue_f': dict(sources=['src/h_queue.cpp', 'src/common/newfault.cpp']),
+    'remover_f': dict(sources=['src/h_remover.cpp', 'src/common/newfault.cpp']),
+    'heter_f': dict(sources=['src/h_heter.cpp', 'src/common/newfault.cpp']),
     'queue': dict(sources=['src/h_queue.cpp']),
     'disp': dict(sources=['src/h_disp.cpp']),
     'cq': dict(sources=['src/h_cq.cpp']),
@@ -242,6 +247,19 @@ prop('C03', 'exploration',
      SCHED_ASSUME + ['handles are shared through a harness table filled when an add returns; a handle of another event is never passed (documented UB)'],
      q, t,
      technique='property-based testing of generated thread programs x generated schedules under a controlled cooperative scheduler, linearizability (Wing-Gong) oracle')
+
+q, t = multi_stages([('cbl_f', 200, 20000), ('queue_f', 200, 20000), ('remover_f', 200, 20000), ('heter_f', 200, 20000)])
+prop('C09', 'fault_enumeration',
+     'generated histories (the C02/C10 program classes) executed once fault-free while counting the fault points of every top-level operation (user code: callback entry, callback copy, payload copy; memory allocation through a '
+     'replaced operator new), then re-executed from scratch once per (operation i, position k) for every k up to the count (<=48, <=8 operations and <=120 faulted executions per program), the k-th fault point throwing; '
+     'a second fault at a later operation in a third of the executions. Oracle: exactly the injected exception reaches the caller (terminate = failure), strong guarantee for listener management / assignment / copies '
+     '(model snapshot restored and compared by enumeration at once), invocations leave what the callbacks did, the history continues in lock-step with the model, ledger empty and LeakSanitizer clean at the end; '
+     'non-trivial = a fault at position k>1 of an operation on a non-empty container',
+     COMMON_ASSUME + ['fault points inside callback scripts (nested library calls) are not injected; only one fault is in flight at a time',
+                      'exhaustive over k only up to the stated caps'],
+     q, t,
+     technique='property-based testing with exhaustive single-fault injection per generated (state, operation) pair: exceptions from user code and operator new, model-based oracle',
+     level_text='Fault enumeration: for generated (state, operation) pairs every fault position k is injected in turn and the outcome compared with the reference model; held = held for every injected position of every generated pair.')
 
 
 _ALL = ['C%02d' % i for i in range(1, 21)]
